@@ -1020,6 +1020,12 @@ def jobs(tier):
             add('ob_expire', N=N, page=page, expire_pos=False)
             for how in ('iter', 'reversed', 'iterkeys', 'iterkeys_rev'):
                 add('ob_iter', N=N, page=page, how=how)
+        if quick:
+            # three rows over pages of one row: a page boundary with a full page after it
+            for how in ('iter', 'reversed', 'iterkeys', 'iterkeys_rev'):
+                add('ob_iter', weight=4, N=3, page=1, how=how, kinds=('int',))
+            add('ob_clear', weight=4, N=3, page=1, kinds=('int',))
+            add('ob_expire', weight=4, N=3, page=1, kinds=('int',))
         add('ob_len', N=N)
         add('ob_peekitem', N=N, last=True)
         add('ob_peekitem', N=N, last=False)
@@ -1039,7 +1045,7 @@ def jobs(tier):
     for func in ('ob_set', 'ob_set_file', 'ob_add', 'ob_add_file', 'ob_touch', 'ob_incr', 'ob_pop', 'ob_delete'):
         out.append(dict(id=func[3:] + '.busy.noretry', func=func, params=dict(N=NB, busy=1), tags=['C14', 'C08'], functions=FUNCS[func] + ['core.Cache._transact'],
                         weight=2, must_reach=['timeout_raised']))
-        out.append(dict(id=func[3:] + '.busy.retry', func=func, params=dict(N=NB, busy=1, retry=True), tags=['C14', 'C05'], functions=FUNCS[func] + ['core.Cache._transact'],
+        out.append(dict(id=func[3:] + '.busy.retry', func=func, params=dict(N=NB, busy=1, retry=True), tags=['C14', 'C05'] + (['C01', 'C08', 'C07'] if func.endswith('_file') else []), functions=FUNCS[func] + ['core.Cache._transact'],
                         weight=20, must_reach=['lock_busy'], all_clauses=True))
     for func in ('ob_clear', 'ob_evict', 'ob_expire'):
         out.append(dict(id=func[3:] + '.busy.noretry', func=func, params=dict(N=NB, busy=1, bulk=True, page=1), tags=['C14', 'C08'], functions=FUNCS[func],
